@@ -252,13 +252,25 @@ Definition getpk (O : oracles) (s : C37.state) (k : N) : res (option (N * N * N)
 Inductive op :=
 | Put (k : N) (b : body)
 | GetPk (k : N)
-| Query (n : name) (t : N).
+| Query (n : name) (t : N)
+| Resolve (k : N) (n : name) (t : N).    (* ZoneStore::resolve(k, n, t) called directly (what resolve_pkarr calls):
+                                            the DNS front end never asks the store for SOA / NS, this does *)
 
 Inductive obs :=
 | OPut (code : N)
 | OGetPk (r : option (N * N * N))
 | OCode (c : N)
-| OAns (rcode : N) (ans : list rr).
+| OAns (rcode : N) (ans : list rr)
+| ORes (code : N) (recs : list rr).      (* 0 = Ok(Some set) with its records (names without zone label and
+                                            origin, lower case), 1 = Ok(None), 2 = Err *)
+
+Definition resolve_obs (O : oracles) (s : C37.state) (k : N) (n : name) (t : N) : C37.state * obs :=
+  match resolve O s k n t with
+  | (s', Ok (Some (setname, recs))) =>
+      (s', ORes 0 (map (fun tr => mkRR (lower_name setname) t (fst tr) (snd tr)) recs))
+  | (s', Ok None) => (s', ORes 1 [])
+  | (s', _) => (s', ORes 2 [])
+  end.
 
 Definition step (O : oracles) (origins : list name) (static : list rr)
            (s : C37.state) (o : op) : C37.state * obs :=
@@ -266,6 +278,7 @@ Definition step (O : oracles) (origins : list name) (static : list rr)
   | Put k b => let '(s', c) := put O s k b in (s', OPut c)
   | GetPk k => (s, match getpk O s k with Ok r => OGetPk r | Err e => OCode e | Panic => OCode 999 end)
   | Query n t => let '(s', (rc, ans)) := query O origins static s n t in (s', OAns rc ans)
+  | Resolve k n t => resolve_obs O s k n t
   end.
 
 Fixpoint run_from (O : oracles) (origins : list name) (static : list rr)
@@ -333,6 +346,7 @@ Definition obs_eqb (m o : obs) : bool :=
   | OAns rc a, OAns rc' a' =>
       if rc =? RC_SUBSET then forallb (fun r => existsb (rr_eqb r) a) a'
       else ((rc =? RC_ANY) || (rc =? rc')) && list_eqb rr_eqb a a'
+  | ORes c a, ORes c' a' => (c =? c') && list_eqb rr_eqb a a'
   | _, _ => false
   end.
 
@@ -398,6 +412,17 @@ Definition obs_ok (O : oracles) (origins : list name) (static : list rr)
         | None =>
             forallb (fun r => existsb (fun x => rr_eqb (mkRR (lower_name (rname x)) (rtype x) (rttl x) (rdata x)) r) static) ans
         end
+  | Resolve k n t, ORes c ans =>
+      (* whatever the store hands out for key k -- for ANY name and ANY type, SOA and NS included --
+         is a record of a packet PUT under k with a verifying signature, kept by the zone filter
+         (so: never of type SOA / NS), of the asked type.  The observed names carry neither zone label
+         nor origin: the zone label is put back and the origin is empty. *)
+      match z32 O k with
+      | Some zl =>
+          forallb (fun r => justified O hist k zl [] (n ++ [zl]) t
+                              (mkRR (rname r ++ [lower zl]) (rtype r) (rttl r) (rdata r))) ans
+      | None => match ans with [] => true | _ => false end
+      end
   | _, _ => false
   end.
 
@@ -424,7 +449,11 @@ Definition known (i : input) : N := 0.
      1 put accepted      2 put rejected: signature    4 put rejected: other reason
      8 query answered from a pkarr zone (records)     16 pkarr name, NXDOMAIN
     32 query on the static path / outside the catalog 64 a packet record was filtered out of its zone
-   128 answer bucket with several records *)
+   128 answer bucket with several records
+   256 direct store resolve of type SOA / NS for a key whose stored packet holds such a record under the
+       asked name and the key's zone label (the filter is what keeps it out)
+   512 direct store resolve, any other
+  1024 accepted packet with exactly one record       2048 ... whose only record is SOA / NS *)
 Definition op_tag (O : oracles) (origins : list name) (static : list rr) (s : C37.state) (o : op) : N :=
   match o with
   | Put k b =>
@@ -433,7 +462,14 @@ Definition op_tag (O : oracles) (origins : list name) (static : list rr) (s : C3
       match b, z32 O k with
       | Full _ _ pay _, Some zl =>
           match parse_h O pay with
-          | Some recs => if (c =? 0) && negb (forallb (keep zl) recs) then 64 else 0
+          | Some recs =>
+              (if (c =? 0) && negb (forallb (keep zl) recs) then 64 else 0) +
+              (if c =? 0 then
+                 match recs with
+                 | [r] => if (rtype r =? T_SOA) || (rtype r =? T_NS) then 3072 else 1024
+                 | _ => 0
+                 end
+               else 0)
           | None => 0
           end
       | _, _ => 0
@@ -443,6 +479,17 @@ Definition op_tag (O : oracles) (origins : list name) (static : list rr) (s : C3
       let '(rc, ans) := snd (query O origins static s n t) in
       if rc =? RC_NOERROR then (if 1 <? len ans then 136 else 8)
       else if rc =? RC_NXDOMAIN then 16 else 32
+  | Resolve k n t =>
+      if ((t =? T_SOA) || (t =? T_NS)) &&
+         match C37.tget (C37.store s) k, z32 O k with
+         | Some p, Some zl =>
+             match parse_h O (pay_id p) with
+             | Some recs => existsb (fun r => (rtype r =? t) && name_eqb_ci (rname r) (n ++ [zl])) recs
+             | None => false
+             end
+         | _, _ => false
+         end
+      then 256 else 512
   end.
 
 Fixpoint tags_from (O : oracles) (origins : list name) (static : list rr)
